@@ -208,6 +208,10 @@ type env struct {
 	tryTO    time.Duration
 	ctxTO    time.Duration // deadline of the context handed to Sign (0 = one minute, as cmd/gensign)
 	nsigners int
+	bo       struct {
+		base, max time.Duration
+		mult, jit float64
+	}
 }
 
 // oddNames: endpoint strings behind which no CA answers - an IPv6 literal without brackets (what "%s:%d" makes of it
@@ -417,7 +421,8 @@ func (e *env) signCall(class string, signer *crypki.Signer, eps []int, behs map[
 // the default configuration (plus scheduling slack), and not below the model's
 // lower end for that attempt.
 func (e *env) checkRetryGaps(rpcs []casim.RPCRec) {
-	base, mult, max, jit := crypki.VerifDefaultBackoff()
+	// the default back-off as it was when the run started: no signer created since may have moved it
+	base, mult, max, jit := e.bo.base, e.bo.mult, e.bo.max, e.bo.jit
 	for i := 1; i < len(rpcs); i++ {
 		if rpcs[i].Attempt == 0 || rpcs[i].IP != rpcs[i-1].IP {
 			continue
@@ -478,6 +483,7 @@ func run(c *core.Ctx) {
 	keyPEM, err := casim.KeyPEM(client)
 	must(err)
 	e := &env{c: c, dir: dir, tryTO: time.Second}
+	e.bo.base, e.bo.mult, e.bo.max, e.bo.jit = crypki.VerifDefaultBackoff()
 	e.certFile, err = casim.WriteFile(dir, "client.crt", casim.CertPEM(client))
 	must(err)
 	e.keyFile, err = casim.WriteFile(dir, "client.key", keyPEM)
@@ -709,6 +715,14 @@ func run(c *core.Ctx) {
 		}
 	}
 
+	// another signer of the process, built from a configuration whose signer section carries back-off settings this
+	// version of the code may not know (it then ignores them): whatever it is configured with is its own business - the
+	// signers of the cases below keep the default back-off
+	if _, err := casim.SignerViaConfigExtra(e.dir, crypki.SignerConfig{TLSClientKeyFile: e.keyFile, TLSClientCertFile: e.certFile,
+		TLSCACertFiles: []string{e.caFile}, CrypkiEndpoints: []string{epName(5)}, CrypkiPort: uint(e.farm.Port), Retries: 5, PerTryTimeout: e.tryTO},
+		map[string]interface{}{"backoff_base_delay": "30s", "backoff_max_delay": "40s", "backoff_multiplier": 1.0, "backoff_jitter": 0.0}); err != nil {
+		c.Note("a signer configuration with unknown back-off keys was refused: " + err.Error())
+	}
 	// ---- (iii) retriable codes with the retry interceptor active: Retries = 2 means one retry
 	// after DefaultConfig.Backoff(1) (about 6 s) - kept to very few cases.
 	for i, n := 0, c.N(1, 4); i < n; i++ {
